@@ -78,6 +78,8 @@ def decanon(val):
     t, _, r = c.partition(":")
     if t == "str":
         return r
+    if t == "float":          # nan / inf: not a number of the grid, written as text
+        return float(r)
     import ast
     return ast.literal_eval(r)
 
